@@ -349,7 +349,7 @@ class SampleListBase:
         """
         base_dir, base_file = os.path.split(os.path.abspath(file_name_base))
         files = [ff for ff in os.listdir(base_dir)
-                 if re.match(f"{base_file}.[0-9]+.pickle", ff)]
+                 if re.fullmatch(re.escape(base_file) + r"\.[0-9]+\.pickle", ff)]
         if len(files) == 0:
             raise RuntimeError(f"No files matching `{file_name_base}.*.pickle`")
         n_samples = _consecutive_length(list(map(lambda x: int(x.split(".")[-2]), files)))
